@@ -169,6 +169,19 @@ func check(which, tier string, dump bool) (code int) {
 		gens = append(gens, gp)
 	}
 
+	var w386 *pipeline.World
+	alt386 := func() *pipeline.World {
+		if w386 == nil {
+			var err error
+			w386, err = pipeline.Load(snap, []string{"./graphql"}, "386")
+			if err != nil || w386.Prog == nil {
+				fmt.Fprintln(os.Stderr, "GOARCH=386 load failed:", err)
+				return nil
+			}
+			fmt.Printf("loaded ./graphql for GOARCH=386 (%d packages)\n", len(w386.All))
+		}
+		return w386
+	}
 	worst := 0
 	for _, id := range ids {
 		p := rules.Get(id)
@@ -190,7 +203,7 @@ func check(which, tier string, dump bool) (code int) {
 				}
 			}
 			if len(r.Failures) == 0 {
-				ctx := &rules.Ctx{W: w, R: r, Tier: tier, Gen: gens}
+				ctx := &rules.Ctx{W: w, R: r, Tier: tier, Gen: gens, Alt386: alt386}
 				func() {
 					defer func() {
 						if e := recover(); e != nil {
